@@ -70,8 +70,11 @@ class Subject(object):
     """name; build() -> dict of objects (a fresh, independent world each time); ops: list of (label, fn(world) ->
     result); inputs(world) -> list of arrays / frames that must stay unchanged; mutate(world) -> None: reconfigure
     the USER's models after construction (the built objects must not notice)."""
-    def __init__(self, name, build, ops, mutate=None):
+    def __init__(self, name, build, ops, mutate=None, reconfigure=None):
         self.name, self.build, self.ops, self.mutate = name, build, ops, mutate
+        # reconfigure(world): a configuration call on the BUILT object; afterwards it must behave like a freshly built
+        # object to which the same call was applied before anything was evaluated
+        self.reconfigure = reconfigure
 
 
 # ------------------------------------------------------------------------------------------------
@@ -164,6 +167,9 @@ def likelihood_subject(rng):
     import chi
     n_out = rng.choice([1, 2])
     fix_mech, fix_err = rng.random() < 0.5, rng.random() < 0.5
+    user_reduced = rng.random() < 0.4          # the user's mechanistic model is itself a reduced model
+    if user_reduced:
+        fix_mech = False
     kinds = [rng.choice(['G', 'CMG', 'LN']) for _ in range(n_out)]
     times = [[0.5, 1.0, 2.0], [1.0, 2.0]][:n_out]
     obs = [[1.5, 2.5, 3.0], [2.0, 4.0]][:n_out]
@@ -172,6 +178,9 @@ def likelihood_subject(rng):
         from harness.toy import PolyToyModel
         import pints
         mech = PolyToyModel(2, n_out)
+        if user_reduced:
+            mech = chi.ReducedMechanisticModel(mech)
+            mech.fix_parameters({'p1': 0.75})
         ems = []
         for k in kinds:
             em = c06.err_model(k)
@@ -197,6 +206,9 @@ def likelihood_subject(rng):
            ('posterior', lambda w: w['post'](w['x'])), ('posterior s1', lambda w: w['post'].evaluateS1(w['x']))]
 
     def mutate(w):
+        if user_reduced:
+            w['mech'].fix_parameters({'p1': 5.0})
+            w['mech'].fix_parameters({'p0': 2.0, 'p1': None})
         w['mech'].set_outputs(['out0'])
         w['mech'].enable_sensitivities(True)
         w['mech'].set_parameter_names({'p0': 'renamed'})
@@ -204,8 +216,12 @@ def likelihood_subject(rng):
             if isinstance(em, chi.ReducedErrorModel):
                 em.fix_parameters({'Sigma rel.': 2.0, 'Sigma base': 3.0})
             em.set_parameter_names(None) if not isinstance(em, chi.ReducedErrorModel) else None
-    return Subject('log-likelihood %s%s%s' % ('+'.join(kinds), ' fixed mech' if fix_mech else '',
-                                              ' fixed error' if fix_err else ''), build, ops, mutate)
+    def reconfigure(w):
+        w['ll'].fix_parameters({'p1': 1.5})        # re-fix an already fixed parameter at another value
+    return Subject('log-likelihood %s%s%s%s' % ('+'.join(kinds), ' fixed mech' if fix_mech else '',
+                                                ' fixed error' if fix_err else '',
+                                                ' user-reduced mech' if user_reduced else ''), build, ops, mutate,
+                   reconfigure if fix_mech else None)
 
 
 def hierarchical_subject(rng):
@@ -345,10 +361,14 @@ def inputs_changed(w, snap):
 
 
 def check_subject(sub, rng, n_calls=14):
-    refs = {}
+    refs, refs2 = {}, {}
     for label, fn in sub.ops:
         w = sub.build()
         refs[label] = freeze(fn(w))
+        if sub.reconfigure is not None:
+            w = sub.build()
+            sub.reconfigure(w)
+            refs2[label] = freeze(fn(w))
     w = sub.build()
     snap = snapshot(w)
     kept = []
@@ -357,6 +377,11 @@ def check_subject(sub, rng, n_calls=14):
         if sub.mutate is not None and step == n_calls // 2:
             sub.mutate(w)
             history.append('<user models reconfigured>')
+        if sub.reconfigure is not None and step == (2 * n_calls) // 3:
+            sub.reconfigure(w)
+            refs = refs2
+            kept = []
+            history.append('<object reconfigured>')
         label, fn = rng.choice(sub.ops)
         history.append(label)
         r = fn(w)
